@@ -299,8 +299,8 @@ func (p LLDP) getTLV(n int) (t int, l int, v []byte, err error) {
 	if t == 0 && l == 0 { // end of LLPDU
 		return t, l, nil, nil
 	}
-	if len(p) > n+2+int(l)+2 {
-		return t, l, p[n+2 : n+l], nil
+	if len(p) >= n+2+l { // the value is the l bytes after the two byte TLV header
+		return t, l, p[n+2 : n+2+l], nil
 	}
 	return 0, 0, nil, ErrParseFrame
 }
